@@ -314,7 +314,17 @@ def validate_trace(trace_module, cfg, trace_path, timeout=600, xmx="3g", env_ext
     return info
 
 
-def validate_split(trace_module, cfg, trace_path, reset_ev, chunk=150000, parallel=4, timeout=900):
+def validate_auto(trace_module, cfg, trace_path, timeout=600, env_extra=None):
+    """validate_trace for traces of ordinary size; a long one (thorough tiers) is validated in pieces. The first
+    record of a trace is its scenario-reset record."""
+    if os.path.getsize(trace_path) < 40_000_000:
+        return validate_trace(trace_module, cfg, trace_path, timeout=timeout, env_extra=env_extra)
+    with open(trace_path) as f:
+        first = json.loads(f.readline())
+    return validate_split(trace_module, cfg, trace_path, first["ev"], timeout=timeout, env_extra=env_extra)
+
+
+def validate_split(trace_module, cfg, trace_path, reset_ev, chunk=150000, parallel=4, timeout=900, env_extra=None):
     """Trace validation of a long trace in pieces: the trace is cut at scenario boundaries (records `reset_ev`) into
     files of about `chunk` records, the pieces are validated side by side, the verdicts are merged (record indices
     are those of the whole trace). The monitors keep no state across a reset record, so nothing is lost."""
@@ -343,11 +353,11 @@ def validate_split(trace_module, cfg, trace_path, reset_ev, chunk=150000, parall
     if len(pieces) <= 1:
         for p, _, _ in pieces:
             os.remove(p)
-        return validate_trace(trace_module, cfg, trace_path, timeout=timeout)
+        return validate_trace(trace_module, cfg, trace_path, timeout=timeout, env_extra=env_extra)
 
     def one(args):
         i, (p, off, cnt) = args
-        info = validate_trace(trace_module, cfg, p, timeout=timeout, meta_suffix="_p%d" % i)
+        info = validate_trace(trace_module, cfg, p, timeout=timeout, meta_suffix="_p%d" % i, env_extra=env_extra)
         return off, cnt, info
     merged = {"consumed": 0, "total": total, "viols": [], "generated": 0, "distinct": 0, "wall": 0.0, "out": ""}
     try:
@@ -640,7 +650,7 @@ def mc_runs(module, insts, tier, cov, timeout=1800):
 
 
 def validate_full(trace_module, tpath, timeout=1800, env_extra=None):
-    info = validate_trace(trace_module, trace_module + ".cfg", tpath, timeout=timeout, env_extra=env_extra)
+    info = validate_auto(trace_module, trace_module + ".cfg", tpath, timeout=timeout, env_extra=env_extra)
     if info["consumed"] != info["total"]:
         raise ToolError("trace %s not fully consumed by %s (%s of %s): malformed record %s" %
                         (tpath, trace_module, info["consumed"], info["total"], info["consumed"] + 1))
